@@ -105,3 +105,20 @@ def rewrite_triggers(t, mapping):
         if n[0] == "lam" and n[3] and n[3] in roots:
             keys.append("alias-rewrites-lambda-variable")
     return keys
+
+
+def sql_injection_triggers(tname, like_pos, payload):
+    """LIKE pattern built from the raw literal: a quote in the pattern operand."""
+    keys = []
+    if like_pos and "'" in payload:
+        keys.append("sql-like-pattern-quote-injection")
+    return keys
+
+
+def sql_value_triggers(tname, like_pos, payload):
+    keys = []
+    if like_pos and any(c in payload for c in "%_"):
+        keys.append("sql-like-pattern-wildcards-not-escaped")
+    if like_pos and "'" in payload:
+        keys.append("sql-like-pattern-quote-injection")
+    return keys
